@@ -300,9 +300,10 @@ func randomMatcher(rng *rand.Rand, depth int) vh.Matcher {
 //            round has the whole limit to itself
 //   noterr:  a `not` over a matcher that fails: matching ends by the error, the route does not run
 //   notfull: a `not` over a matcher that needs more than the matching limit holds: matching ends by buffer exhaustion
+//   emptyset, teelast: see below
 func directedRouterRun(rng *rand.Rand, tag int64) *vh.RouterRun {
 	thr := func(at int, v string) vh.Matcher { return vh.Matcher{K: "thr", At: at, V: v, W: v, Sub: [][]vh.Matcher{}} }
-	switch (tag / 10) % 3 {
+	switch (tag / 10) % 5 {
 	case 0:
 		n := 2048 * (1 + rng.Intn(3))
 		a2 := 8192 - n + 1 + rng.Intn(n-1)
@@ -317,7 +318,7 @@ func directedRouterRun(rng *rand.Rand, tag int64) *vh.RouterRun {
 		for k := 0; k < n/2048; k++ {
 			pulls = append(pulls, 2048)
 		}
-		rest := []int{2048, 1000, 1, 2047}[rng.Intn(4)]
+		rest := []int{2048, 1000, 700, 2047}[rng.Intn(4)]
 		for sum := 0; sum < a2+100; sum += rest {
 			pulls = append(pulls, rest)
 		}
@@ -329,6 +330,23 @@ func directedRouterRun(rng *rand.Rand, tag int64) *vh.RouterRun {
 			{Sets: [][]vh.Matcher{}, Hs: []vh.HandlerSpec{{K: "term"}}},
 		}
 		return &vh.RouterRun{Cfg: &vh.RouterCfg{Lists: [][]vh.RouteSpec{routes}}, Scale: 1, Slen: at + rng.Intn(500), EndKind: "eof", Pulls: []int{1 + rng.Intn(at), 2048, 2048}, Tag: tag}
+	case 3:
+		// emptyset: an EMPTY matcher set next to one that says no is the route's match-everything alternative
+		at := 1 + rng.Intn(100)
+		routes := []vh.RouteSpec{
+			{Sets: [][]vh.Matcher{{thr(at, "N")}, {}}, Hs: []vh.HandlerSpec{{K: []string{"term", "pass"}[rng.Intn(2)]}}},
+			{Sets: [][]vh.Matcher{{thr(at+5, "Y")}}, Hs: []vh.HandlerSpec{{K: "term"}}},
+		}
+		return &vh.RouterRun{Cfg: &vh.RouterCfg{Lists: [][]vh.RouteSpec{routes}}, Scale: 1, Slen: at + 300, EndKind: "eof", Pulls: []int{at + 20, 2048}, Tag: tag}
+	case 4:
+		// teelast: tee is the LAST handler of a non-terminal route; matching goes on, on the connection the tee made,
+		// and needs another segment
+		at := 50 + rng.Intn(2000)
+		routes := []vh.RouteSpec{
+			{Sets: [][]vh.Matcher{}, Hs: []vh.HandlerSpec{{K: "tee"}}},
+			{Sets: [][]vh.Matcher{{thr(at, "Y")}}, Hs: []vh.HandlerSpec{{K: "term"}}},
+		}
+		return &vh.RouterRun{Cfg: &vh.RouterCfg{Lists: [][]vh.RouteSpec{routes}}, Scale: 1, Slen: at + 500, EndKind: "eof", Pulls: []int{at / 2, 2048, 2048}, Tag: tag}
 	default:
 		routes := []vh.RouteSpec{
 			{Sets: [][]vh.Matcher{{{K: "not", V: "Y", W: "Y", Sub: [][]vh.Matcher{{thr(11000+rng.Intn(3000), "Y")}}}}}, Hs: []vh.HandlerSpec{{K: "term"}}},
